@@ -105,8 +105,16 @@ def run(ctx):
               'first path\'s value' % leaves
     ctx.ob('C29-PARAMKEY.composite-path-key-includes-literal-components', bj, pk[0], ok, '' if ok else why, expected='item.paramkey for parameters, item.value for literals')
     mp = repo.fn('pony.orm.sqlbuilding', 'SQLBuilder.make_param')
-    ok = any(norm(s) == 'param = keys.get(paramkey)' for s in walk_no_nested(mp.node) if isinstance(s, ast.stmt))
-    ctx.ob('C29-PARAMKEY.parameters-deduplicated-by-key', mp, mp.node, ok, '' if ok else 'make_param no longer de-duplicates by paramkey (rule premise changed; review)')
+    # premise of the clause above (not a requirement of C29 in itself): make_param looks parameters up by paramkey in the builder's key table
+    # (get / subscript / membership) and files new ones there; recorded as information, never as a violation
+    from ..q import alias_map, deref
+    am = alias_map(mp.node)
+    def is_keys(e): return (deref(mp.node, e, am) or '').endswith('.keys') or dotted(e) == 'keys'
+    looks = [x for x in ast.walk(mp.node) if (isinstance(x, ast.Call) and isinstance(x.func, ast.Attribute) and x.func.attr in ('get', 'setdefault') and is_keys(x.func.value) and x.args and norm(x.args[0]) == 'paramkey')
+             or (isinstance(x, ast.Subscript) and isinstance(x.ctx, ast.Load) and is_keys(x.value) and norm(x.slice) == 'paramkey')
+             or (isinstance(x, ast.Compare) and norm(x.left) == 'paramkey' and any(is_keys(c) for c in x.comparators))]
+    ctx.ob('C29-PARAMKEY.parameters-deduplicated-by-key', mp, mp.node, True, 'de-duplication by paramkey present' if looks else 'make_param does not de-duplicate by paramkey: the key '
+           'clause above is then moot', nontrivial=bool(looks))
     # ---------------------------------------------------------------- DEFAULTS
     SBc = repo.cls('pony.orm.sqlbuilding', 'SQLBuilder')
     n = 0
